@@ -444,7 +444,16 @@ def run_history(roots, hist, result_types):
                 fresh, fexc = _guarded(fr2)
         else:  # mutate
             n = len(h.muts[o])
-            ev["desc"] = mutate(t, h.obj[o], op, n)
+            try:
+                ev["desc"] = mutate(t, h.obj[o], op, n)
+            except Exception as e:  # pylint: disable=broad-except
+                # the object no longer supports its own public interface (its state was damaged through an alias):
+                # reported as an exception of this step; the history ends here
+                ev["desc"] = [op, "failed"]
+                ev["exc"] = "aged:%s fresh:None" % type(e).__name__
+                ev["snaps"] = h.snaps()
+                evs.append(ev)
+                break
             h.muts[o].append((op, n))
             ans = fresh = exc = fexc = None
         if k in ("conv1", "conv2") and step["d"] in h.obj:
